@@ -16,3 +16,7 @@ add('C09', 'exploration', 'model-based property testing with fault injection (te
     'terminate()/close()/peer-vanish are injected at generated points and, exhaustively, at every scheduler step of fixed base scenarios; safety clauses are judged on the event and octet logs, liveness as quiescence of a fair drain with both sockets closed.',
     'Liveness is bounded-step under a fair schedule on the virtual loop, not unbounded liveness; timers off (C14 owns them); abrupt close()/peer loss are exempt from the completion and reporting clauses.',
     'DESIGN.md section 3 C09')
+add('C07', 'exploration', 'property-based testing + exhaustive cut enumeration; differential against an independent RFC 9174 codec',
+    'Conforming peer streams are cut in every way for short streams (all 2^(n-1) compositions), at every single position and octet-by-octet for fixed longer streams, and boundary-directed/randomly for generated streams; the messages a real ContactHandler acts on, the read in which it acts and its buffer occupancy are compared with an independent incremental parser; all message types are round-tripped against the independent codec.',
+    'Trusts vlib/ref9174.py; a read = one recv() on the simulated socket; the contact header travels alone; MSG_REJECT octet order taken from the pinned unit test.',
+    'DESIGN.md section 3 C07')
